@@ -234,40 +234,25 @@ def trimLeavesL (ws : Nat) : List Tree → List (Nat × Nat × Nat)
 end
 
 mutual
-/-- no `WhiteSpace` node anywhere in the tree -/
-def noWs (ws : Nat) : Tree → Bool
-  | .leaf .. => true
-  | .node k ks => k != ws && noWsL ws ks
-def noWsL (ws : Nat) : List Tree → Bool
-  | [] => true
-  | t :: ts => noWs ws t && noWsL ws ts
-end
-
-mutual
-/-- no `WhiteSpace` node strictly inside another `WhiteSpace` node -/
-def flatWs (ws : Nat) : Tree → Bool
-  | .leaf .. => true
-  | .node k ks => if k = ws then noWsL ws ks else flatWsL ws ks
-def flatWsL (ws : Nat) : List Tree → Bool
-  | [] => true
-  | t :: ts => flatWs ws t && flatWsL ws ts
-end
-
-mutual
-theorem trim_skip (ws : Nat) (t : Tree) (s : TrimSt) (hs : s.skip = true) (h : noWs ws t = true) :
+/-- below an open `WhiteSpace` (depth > 0) nothing is counted and the depth is restored -/
+theorem trim_skip (ws : Nat) (t : Tree) (s : TrimSt) (hs : 0 < s.skip) :
     (events t).foldl (trimStep ws) s = s := by
   cases t with
-  | leaf o l n => simp [events, trimStep, hs]
+  | leaf o l n =>
+    have : s.skip ≠ 0 := by omega
+    simp [events, trimStep, this]
   | node k ks =>
-    simp [noWs] at h
-    simp [events, List.foldl_append, trimStep, h.1, trim_skipL ws ks s hs h.2]
-theorem trim_skipL (ws : Nat) (ts : List Tree) (s : TrimSt) (hs : s.skip = true)
-    (h : noWsL ws ts = true) : (eventsL ts).foldl (trimStep ws) s = s := by
+    by_cases hk : k = ws
+    · subst hk
+      have h1 := trim_skipL k ks { s with skip := s.skip + 1 } (by simp)
+      simp [events, List.foldl_append, trimStep, h1]
+    · simp [events, List.foldl_append, trimStep, hk, trim_skipL ws ks s hs]
+theorem trim_skipL (ws : Nat) (ts : List Tree) (s : TrimSt) (hs : 0 < s.skip) :
+    (eventsL ts).foldl (trimStep ws) s = s := by
   cases ts with
   | nil => simp [eventsL]
   | cons t ts =>
-    simp [noWsL] at h
-    simp [eventsL, List.foldl_append, trim_skip ws t s hs h.1, trim_skipL ws ts s hs h.2]
+    simp [eventsL, List.foldl_append, trim_skip ws t s hs, trim_skipL ws ts s hs]
 end
 
 def trimAcc (s : TrimSt) (x : Nat × Nat × Nat) : TrimSt :=
@@ -280,8 +265,7 @@ theorem trimAcc_skip (ls : List (Nat × Nat × Nat)) (s : TrimSt) :
   | cons x xs ih => simp [List.foldl_cons, ih, trimAcc]
 
 mutual
-theorem trim_flat (ws : Nat) (t : Tree) (s : TrimSt) (hs : s.skip = false)
-    (h : flatWs ws t = true) :
+theorem trim_flat (ws : Nat) (t : Tree) (s : TrimSt) (hs : s.skip = 0) :
     (events t).foldl (trimStep ws) s = (trimLeaves ws t).foldl trimAcc s := by
   cases t with
   | leaf o l n =>
@@ -290,22 +274,17 @@ theorem trim_flat (ws : Nat) (t : Tree) (s : TrimSt) (hs : s.skip = false)
   | node k ks =>
     by_cases hk : k = ws
     · subst hk
-      simp [flatWs] at h
-      have := trim_skipL k ks { s with skip := true } rfl h
+      have := trim_skipL k ks { s with skip := s.skip + 1 } (by simp)
       simp [events, List.foldl_append, trimStep, trimLeaves, this]
-      cases s; simp_all
-    · simp [flatWs, hk] at h
-      simp [events, List.foldl_append, trimStep, hk, trimLeaves, trim_flatL ws ks s hs h]
-theorem trim_flatL (ws : Nat) (ts : List Tree) (s : TrimSt) (hs : s.skip = false)
-    (h : flatWsL ws ts = true) :
+    · simp [events, List.foldl_append, trimStep, hk, trimLeaves, trim_flatL ws ks s hs]
+theorem trim_flatL (ws : Nat) (ts : List Tree) (s : TrimSt) (hs : s.skip = 0) :
     (eventsL ts).foldl (trimStep ws) s = (trimLeavesL ws ts).foldl trimAcc s := by
   cases ts with
   | nil => simp [eventsL, trimLeavesL]
   | cons t ts =>
-    simp [flatWsL] at h
-    have h1 := trim_flat ws t s hs h.1
-    have hs' : ((trimLeaves ws t).foldl trimAcc s).skip = false := by rw [trimAcc_skip]; exact hs
-    simp [eventsL, trimLeavesL, List.foldl_append, h1, trim_flatL ws ts _ hs' h.2]
+    have h1 := trim_flat ws t s hs
+    have hs' : ((trimLeaves ws t).foldl trimAcc s).skip = 0 := by rw [trimAcc_skip]; exact hs
+    simp [eventsL, trimLeavesL, List.foldl_append, h1, trim_flatL ws ts _ hs']
 end
 
 theorem trimAcc_leafAcc (ls : List (Nat × Nat × Nat)) (s : TrimSt) :
